@@ -128,6 +128,10 @@ def reflections_single(target, mass, integ, cfg, q, p, lits):
     orig = target.corrector
 
     def spy(pos, mom):
+        # a drift that ends exactly on a wall starts the next drift on the wall: outside the hypothesis of the
+        # theorem (every drift starts strictly inside), a null set for the sampler
+        if (lo is not None and (numpy.abs(pos - lo) <= 1e-12).any()) or (hi is not None and (numpy.abs(pos - hi) <= 1e-12).any()):
+            events["bad"] = True
         if lo is not None:
             low = pos < lo
             if low.any():
@@ -142,7 +146,16 @@ def reflections_single(target, mass, integ, cfg, q, p, lits):
                     events["bad"] = True
             if lo is not None and (low & high).any():
                 events["bad"] = True
-        return orig(pos, mom)
+        # the hypothesis is about the SPECIFIED trajectory: reflect with the reference mirror, not with the code under test
+        if lo is not None:
+            low = pos < lo
+            pos[low] = (2 * lo - pos)[low]
+            mom[low] *= -1.0
+        if hi is not None:
+            high = pos > hi
+            pos[high] = (2 * hi - pos)[high]
+            mom[high] *= -1.0
+        return None
     target.corrector = spy
     try:
         smp = make_sampler(cfg, target, mass, numpy.random.default_rng(3))
@@ -173,6 +186,13 @@ def reversal_case(rnd, tier, force=None):
         cfg = {"d": d, "stepsize": rnd.choice([0.05, 0.1, 0.2, 0.3]), "steps": rnd.randint(1, 8), "randomize": False}
         q = means + numpy.array([rnd.randint(-6, 6) / 8.0 for _ in range(d)]).reshape(-1, 1)
         p = numpy.array([rnd.randint(-24, 24) / 8.0 for _ in range(d)]).reshape(-1, 1)
+        if bounded and rnd.random() < 0.35:
+            # start in a corner of the box, moving outwards: several coordinates leave through different walls in one drift
+            side = numpy.array([rnd.choice([-1.0, 1.0]) for _ in range(d)]).reshape(-1, 1)
+            p = side * numpy.array([rnd.randint(4, 16) / 8.0 for _ in range(d)]).reshape(-1, 1)
+            v = numpy.asarray(mass.kinetic_energy_gradient(p.copy()), dtype=float).reshape(-1, 1)
+            # ... all of them within the first drift (a third of the way to the end of it)
+            q = numpy.where(side < 0, lo, hi) - (cfg["stepsize"] / 6.0) * v
     single, reflected = reflections_single(target, mass, integ, cfg, col(q), col(p), None)
     smp = make_sampler(cfg, target, mass, numpy.random.default_rng(5))
     q1, p1, _ = propagate(smp, integ, col(q), col(p))
